@@ -102,6 +102,8 @@ def harnesses(tier, seed):
                               bounds="n=%d, m=1, any model state (any base point, any box containing the points)" % n,
                               assumptions=["ctrsbox_sfista stubbed: captures its arguments"], expect=['box:projector-is-the-true-box-in-those-coordinates[%s]' % which], nproc=1))
     hs += [h for h in c13.harnesses(tier, seed) if h.name.startswith('regularised-step')]
+    from .c03 import shared_c02_harnesses
+    hs += [h for h in shared_c02_harnesses(tier, ('evalobj',)) if 'h=1' in h.name]
     for h in hs:
         if h.name.startswith('regularised-step'):
             h.home = 'C06'
